@@ -253,6 +253,10 @@ pub fn run(ctx: &Ctx, rep: &mut Report) {
         check_position(p, rng.gen_bool(0.2), rep);
         rep.count("family_en_passant", 1);
     }
+    for p in gen::ep_check_family(&mut rng, ctx.n(40_000, 1_000_000) as usize).iter() {
+        check_position(p, false, rep);
+        rep.count("family_en_passant_answers_check", 1);
+    }
     // random play and random sampling
     let n_play = ctx.n(1_500_000, 40_000_000);
     let n_sample = ctx.n(1_000_000, 40_000_000);
